@@ -282,6 +282,12 @@ class Gen:
             self.emit("extents %d" % h)
 
 
+def dev_line(rng, size):
+    """the device before formatting: blank, or stale (every byte non-zero: what format and the library do not write stays garbage,
+    so a directory cluster that is not zeroed completely or a structure that is not initialised shows up)"""
+    return "dev %d %d" % (size, rng.choice([0, 0, 0, 209, 229, 65]))
+
+
 def gen_session(rng, conf, nops, mutating=True, file_io=True, mount="mount 1 0 lossy", prelude=None):
     label, size, fmt = conf
     g = Gen(rng, mutating, file_io)
@@ -291,7 +297,7 @@ def gen_session(rng, conf, nops, mutating=True, file_io=True, mount="mount 1 0 l
         g.cluster = bps if toks[3] == "-" else int(toks[3])
     except Exception:
         pass
-    head = ["dev %d 0" % size, "wlog 0", fmt, "pages", "wlog 1", mount]
+    head = [dev_line(rng, size), "wlog 0", fmt, "pages", "wlog 1", mount]
     if prelude:
         head += prelude
     while len(g.lines) < nops:
@@ -369,12 +375,12 @@ def run_judged(scripts, flags=("wf", "tree", "info"), variant="default", timeout
     return res
 
 
-def dir_heavy_session(rng, conf, nfiles=14):
+def dir_heavy_session(rng, conf, nfiles=14, fill=None):
     """a sub-directory (and, on FAT32, the root) that grows over several NON-contiguous clusters, entries whose slots straddle
     or start exactly at cluster boundaries (name lengths vary the slot count), every file later re-opened BY PATH, modified and
     dropped; ends with remount + full traversal.  Returns the script (head + ops)."""
     label, size, fmt = conf
-    head = ["dev %d 0" % size, "wlog 0", fmt, "pages", "wlog 1", "mount 1 0 lossy"]
+    head = [dev_line(rng, size) if fill is None else "dev %d %d" % (size, fill), "wlog 0", fmt, "pages", "wlog 1", "mount 1 0 lossy"]
     lines = ["create_dir 0 %s 1" % hexs("deep")]
     names = []
     h = 10
@@ -435,14 +441,14 @@ def full_dir_session(rng, variant):
         fmt = "format 512 4400 512 16 16 2 - - -" if fat16 else "format 512 64 512 12 16 2 - - -"
         size = (4400 if fat16 else 64) * 512
         cap = 16; used = 0; target = 0
-        head = ["dev %d 0" % size, "wlog 0", fmt, "pages", "wlog 1", "mount 1 0 lossy"]
+        head = [dev_line(rng, size), "wlog 0", fmt, "pages", "wlog 1", "mount 1 0 lossy"]
         lines = ["list 0", "create_dir 0 %s 1" % hexs("SUB")]; used += nslots("SUB")
         lines += ["create_file 1 %s 9" % hexs("inside.txt"), "write_pat 9 700 5", "drop_file 9",
                   "create_dir 1 %s 2" % hexs("movable dir"), "drop_dir 2"]
     else:
         fmt = "format 512 64 512 12 16 2 - - -"; size = 64 * 512
         cap = 16; used = 2; target = 1
-        head = ["dev %d 0" % size, "wlog 0", fmt, "pages", "wlog 1", "mount 1 0 lossy"]
+        head = [dev_line(rng, size), "wlog 0", fmt, "pages", "wlog 1", "mount 1 0 lossy"]
         lines = ["list 0", "create_dir 0 %s 1" % hexs("SUB"), "create_file 0 %s 9" % hexs("outside.txt"), "write_pat 9 700 5", "drop_file 9",
                  "create_dir 0 %s 2" % hexs("movable dir"), "drop_dir 2"]
     leave = rng.below(4)
@@ -501,3 +507,42 @@ def full_dir_session(rng, variant):
     lines += attempts("again")
     lines += ["drop_all", "list 0", "list 1", "stats", "unmount", "mount 1 0 lossy", "list 0", "stats", "unmount"]
     return head + lines
+
+
+def topfree_volume(bits, keep=14, variant="default"):
+    """a library-formatted FAT12 / FAT16 volume of the MAXIMAL cluster count of its width (4084 / 65524 clusters, so that the
+    highest cluster numbers are 0xFF0.. / 0xFFF0..) on which only the last [keep] clusters are free: every other data cluster is
+    pre-marked as a one-cluster chain in every FAT copy (poked before the mount).  New files therefore run THROUGH the top
+    clusters.  Returns (label, head lines up to and including the mount, cluster size, free clusters), or None."""
+    import fatimg
+    clusters = 4084 if bits == 12 else 65524
+    r = vlib.sectors_for_clusters(512, 512, clusters, clusters + 30, variant=variant)
+    if r is None or r[1] != bits:
+        return None
+    ts = r[0]
+    fmt = "format 512 %d 512 - - - - - -" % ts
+    out = vlib.exec_raw(["fmtbs"], "512 %d 512 - - - - - -\n" % ts, variant=variant).split("\n")[0].split(" ")
+    if out[0] != "ok":
+        return None
+    g = fatimg.Geom(bytes.fromhex(out[-1]))
+    if g.clusters != clusters:
+        return None
+    fb = g.spf * g.bps
+    buf = bytearray(fb)
+    top = 0xFFF if bits == 12 else 0xFFFF
+    def set_raw(c, raw):
+        if bits == 12:
+            o = c + c // 2
+            w = buf[o] | (buf[o + 1] << 8)
+            w = (w & 0xF000) | raw if c % 2 == 0 else (w & 0x000F) | (raw << 4)
+            buf[o] = w & 0xFF; buf[o + 1] = w >> 8
+        else:
+            buf[2 * c:2 * c + 2] = raw.to_bytes(2, "little")
+    set_raw(0, (0xF00 if bits == 12 else 0xFF00) | g.media); set_raw(1, top)
+    for c in range(2, clusters + 2 - keep):
+        set_raw(c, top)
+    for c in range(clusters + 2, fb * 8 // bits):
+        set_raw(c, top)                     # padding entries as the library's format leaves them
+    pokes = ["poke %d %s" % (g.fat_off + k * fb, bytes(buf).hex()) for k in range(g.fats)]
+    head = ["dev %d 0" % (ts * 512), "wlog 0", fmt] + pokes + ["pages", "wlog 1", "mount 1 0 lossy"]
+    return ("fat%d-max-topfree" % bits, head, 512, keep)
